@@ -464,6 +464,8 @@ func C07(c *core.Ctx) {
 			texts = append(texts, pre+base, base+pre, pre)
 		}
 	}
+	// quoted strings with unusual contents: empty, blank-only, padded, a lone quote character inside
+	texts = append(texts, quotedStringTexts()...)
 	texts = append(texts, "\ufeff", "\ufeff\n", "a\ufeffb", "", "\n", "\xff", "#é", "#é\n", "//€ x\n2020-01-01 open Assets:A\n", "#é\nx\n2023-01-01 open Assets:A\n",
 		"2020-01-01 open Assets:"+strings.Repeat("Ab", 60000)+"\n", strings.Repeat("# c\n", 20000), "2020-01-01 \""+strings.Repeat("é", 100000)+"\"\nAssets:A Assets:B 1 CHF\n")
 	seen := map[string]bool{}
@@ -513,4 +515,17 @@ func C07(c *core.Ctx) {
 			}
 			return "parser:" + fmt.Sprint(cs["why"]), fmt.Sprintf("parser: %v %v %v\ninput (%d bytes): %q", cs["why"], cs["panic"], cs["errtext"], cs["len"], t)
 		})
+}
+
+// quotedStringTexts: journals whose quoted strings (descriptions, include paths) are empty, blank-only, padded
+// or contain line breaks.
+func quotedStringTexts() []string {
+	var texts []string
+	for _, q := range []string{"", " ", "  ", "\t", " \t ", " x", "x ", " x ", "\n", " \n ", "é", " é "} {
+		texts = append(texts,
+			"2023-04-03 \""+q+"\"\nAssets:A Assets:B 1 CHF\n",
+			"2020-01-01 open Assets:A\n\n2023-04-03 \""+q+"\"\nAssets:A Assets:B 1 CHF\n\n2023-04-04 \"y\"\nAssets:A Assets:B 2 CHF\n",
+			"include \""+q+"\"\n", "# c\ninclude \""+q+"\"\n2020-01-01 open Assets:A\n")
+	}
+	return texts
 }
